@@ -17,6 +17,7 @@ from vv.ref import paths as ref
 
 ID = 'C17'
 CASES = {'quick': 1500, 'thorough': 50000}
+FUZZ_RUNS = 40000        # thorough tier: atheris workers, -runs per worker
 RULE = ('(1) Exhaustive slice: every dict tree of depth <=2 over {a,b} (25 '
         'trees; thorough: also the 729 trees over {a,b,c}), every start node, '
         'every path of length <=4 (thorough slice: <=3) over {a,b,c,..}: Store '
